@@ -454,9 +454,21 @@ func init() {
 		hi := NewC16()
 		hi.Base = 253 // the next batches get nonces 254, 255, 256 (a byte boundary of the big-endian nonce in every store index)
 		hi.Chains = []string{"ethereum"}
-		return []MultiCase{{Name: "fresh chain", Spec: NewC16(), Cfg: cfg}, {Name: "batch nonces 254..256", Spec: hi, Cfg: cfg}}, []string{
+		// operator addresses that are not 20 ordinary bytes: a 32-byte address (the SDK admits up to 255 bytes; module and
+		// ADR-028 accounts have 32) and the last address of the 20-byte key space
+		hub.LaxAddresses = true
+		odd := NewC16()
+		odd.Chains = []string{"ethereum"}
+		long := hub.NewValidator("A")
+		lb := append(bytes.Repeat([]byte{0xa5}, 31), 0x01)
+		long.Oper, long.Acc = sdk.ValAddress(lb), sdk.AccAddress(lb)
+		odd.Vals[0] = long
+		odd.Vals[1] = edgeValidator("B", 0xff, 0xff)
+		return []MultiCase{{Name: "fresh chain", Spec: NewC16(), Cfg: cfg}, {Name: "batch nonces 254..256", Spec: hi, Cfg: cfg},
+				{Name: "operator addresses of 32 bytes (A) and 0xff..ff (B)", Spec: odd, Cfg: cfg}}, []string{
 			"validators A, B bonded, C unbonded, D unbonding (all with registered keys); batches: up to three of one token plus one of a second token on ethereum; signers: validator account, orchestrator, stranger; tx refs: existing/unknown signer set, existing/unknown batch, contract call; claimed external signer own/other's; a confirmation built for the other chain's batch; duplicates by repetition",
 			"second case: the chain has already issued 253 batch nonces (genesis field LastOutgoingBatchTxNonce), so that the next batches straddle a byte boundary of the nonce inside the signature store keys",
+			"third case: validator A has a 32-byte operator address and B the address 0xff..ff; for this check the harness admits the address lengths the SDK admits (1..255 bytes) instead of the application's 20-byte rule, as the repository's own test environment does",
 			"contract calls are created through keeper.CreateContractCallTx (no message creates them)",
 			"signature validity is not part of C16 as stated (SubmitTxConfirmation ignores ValidateEthereumSignature); honest signatures are used",
 			"only-if: a successful confirmation must satisfy the conditions; rejecting one is never a violation",
